@@ -180,22 +180,113 @@ class Ref:
         self._first[key] = res
         return res
 
-    def cont_first(self, stack, strict=False, data=None, last=None):
-        """symbols the continuation (everything after the current statement) can consume first"""
+    def fx(self, stmts, strict, data=None, last=None, dyn=False):
+        """exit-aware first set -> (symbols that may be consumed first, ways of completing without consuming: "fall" | ("break", label)).
+        dyn: an `if` reached without an intervening data change is resolved with the current data"""
         F = set()
+        exits = set()
+        for st in stmts:
+            k = st[0]
+            if k in ("match", "append"):
+                r = self.core(st[-1])
+                F |= {c for c in self.syms if self.live(r, r, c)}
+                if not D.nullable(r):
+                    return F, exits
+            elif k == "wait":
+                if not strict:
+                    F |= set(self.reps)
+                r = self.core(st[1])
+                F |= {c for c in self.syms if self.live(r, r, c)}
+                return F, exits
+            elif k == "finish":
+                return F, exits
+            elif k == "break":
+                exits.add(("break", st[1]))
+                return F, exits
+            elif k in ("hook", "yield"):
+                continue
+            elif k in ("set", "setstr", "appendc", "delete"):
+                dyn = False
+            elif k == "optional":
+                f, ex = self.fx(tuple(st[1]), strict, data, last, dyn)
+                F |= f
+                exits |= ex - {"fall"}
+            elif k == "loop":
+                f, ex = self.fx(tuple(st[2]), strict, data, last, dyn)
+                F |= f
+                own = {x for x in ex if x != "fall" and (x[1] is None or x[1] == st[1])}
+                exits |= ex - {"fall"} - own
+                if not own and "fall" not in ex:
+                    return F, exits
+            elif k in ("try", "foreach"):
+                f, ex = self.fx(tuple(st[1]), strict, data, last, dyn)
+                F |= f
+                exits |= ex - {"fall"}
+                if "fall" not in ex:
+                    return F, exits
+            elif k == "if":
+                branches = None
+                if dyn and data is not None:
+                    try:
+                        for cnd, body in st[1]:
+                            if cexpr.ev(cnd, self.env, data, last)[0] != 0:
+                                branches = [tuple(body)]
+                                break
+                        else:
+                            branches = [tuple(st[2]) if st[2] is not None else ()]
+                    except cexpr.CUB:
+                        branches = None
+                if branches is None:
+                    branches = [tuple(body) for cnd, body in st[1]] + [tuple(st[2]) if st[2] is not None else ()]
+                exf = set()
+                for body in branches:
+                    f, ex = self.fx(body, strict, data, last, dyn)
+                    F |= f
+                    exf |= ex
+                exits |= exf - {"fall"}
+                if "fall" not in exf:
+                    return F, exits
+            elif k == "case":
+                has_else = False
+                for prio, pats, body in st[2]:
+                    for p in pats:
+                        if p == "else":
+                            has_else = True
+                        else:
+                            r = self.core(p)
+                            F |= {c for c in self.syms if self.live(r, r, c)}
+                if has_else and not strict:
+                    F |= set(self.syms)
+                return F, exits
+            else:
+                raise ValueError(st)
+        exits.add("fall")
+        return F, exits
+
+    def cont_first(self, stack, strict=False, data=None, last=None):
+        """symbols the continuation (everything after the current statement) can consume first.  Follows the control flow exactly:
+        completing a loop body restarts it, a break continues after its loop (and never restarts it)"""
+        F = set()
+        dyn = strict and data is not None
+        pend = {"fall"}
         for fr in reversed(stack):
             kind, stmts, i, extra = fr
-            if strict and data is not None:
-                f, e = self.first_dyn(stmts[i:], data, last)
-            else:
-                f, e = self.first(stmts[i:], strict)
-            F |= f
-            if not e:
-                return F
-            if kind == "loop":
-                f, e = self.first(stmts, strict)
+            new = {x for x in pend if x != "fall"}
+            if "fall" in pend:
+                f, ex = self.fx(tuple(stmts[i:]), strict, data, last, dyn)
                 F |= f
-                return F
+                for x in ex:
+                    if x == "fall" and kind == "loop":
+                        f2, ex2 = self.fx(tuple(stmts), strict)
+                        F |= f2
+                        new |= {y for y in ex2 if y != "fall"}
+                    else:
+                        new.add(x)
+            if kind == "loop":
+                new = {("fall" if (x != "fall" and (x[1] is None or x[1] == extra)) else x) for x in new}
+            pend = new
+            if not pend:
+                break
         return F
 
     # ------------------------------------------------------------------ configurations
